@@ -16,6 +16,7 @@ from d42.declaration.types import (
     NoneSchema,
     StrSchema,
     UUID4Schema,
+    optional,
 )
 
 __all__ = ("from_native",)
@@ -35,7 +36,7 @@ def from_native(value: Any) -> GenericSchema:
     elif isinstance(value, list):
         return ListSchema()([from_native(x) for x in value])
     elif isinstance(value, dict):
-        if any(is_ellipsis(key) for key in value):
+        if any(is_ellipsis(key) or isinstance(key, optional) for key in value):
             raise ValueError(value)
         return DictSchema()({key: from_native(val) for key, val in value.items()})
     elif isinstance(value, bytes):
